@@ -508,7 +508,9 @@ META = {
     "rule": (
         "one run = one seeded scenario: detector altitude, cloud function, batch (1..40 events from a fixed pool, or "
         "99..400 with the literal partition_size=100 and 1..3 workers half of the time), partition size, scheduler mode (thread-atomic / interleaved / process / "
-        "free-order), 1..16 workers, chunksize, job costs, stragglers, pre-emption quanta, and in the fault family one fault; "
+        "free-order), 1..16 workers, chunksize, job costs, stragglers, pre-emption quanta, and in the fault family one fault "
+        "(a failure of a seeded exception type injected at a seeded event, a natural failure such as a NaN energy, worker death, or an allocation failure at a traced line); "
+        "family 'real' repeats the oracle under dask's real synchronous/threaded/multi-process schedulers (observational); "
         "a run is non-trivial when the batch has >= 2 partitions AND (execution order != submission order OR >= 1 context switch "
         "inside a task OR a fault fired); distinct = distinct sha256 digests of the simulator event log among non-trivial runs"
     ),
@@ -530,5 +532,7 @@ META = {
         "duplicate (speculative) execution of a task is not injected: none of the three local schedulers re-executes",
         "pre-emption granularity is one Python source line of repository code; races inside a single numpy call are invisible",
         "the empty batch is not compared (np.empty([]) has no observable to compare bit for bit)",
+        "the interpreter runs under PYTHONHASHSEED derived from VERIF_SEED; spawned workers of the real 'processes' runs get another, seeded one",
+        "the pool contains 8 pairs of events that differ in one coordinate by less than a float32 spacing (same float32, different float64)",
     ],
 }
